@@ -482,6 +482,35 @@ func (c *Ctx) IdentitySource(prop string) {
 					continue
 				}
 				nw++
+				// the credentials object belongs to this request alone: a fresh object that is only filled and returned
+				// (a pooled, cached or otherwise retained object can be re-labelled by another request while this one still uses it)
+				{
+					al, isAlloc := fa.X.(*ssa.Alloc)
+					fresh := isAlloc
+					why := "it is not created by this call: " + an.Term(fa.X)
+					if isAlloc {
+						for _, r := range *al.Referrers() {
+							switch x := r.(type) {
+							case *ssa.DebugRef, *ssa.Return:
+							case *ssa.FieldAddr:
+								for _, r2 := range *x.Referrers() {
+									if st2, ok := r2.(*ssa.Store); !ok || st2.Addr != ssa.Value(x) {
+										if _, isLoad := r2.(*ssa.UnOp); !isLoad {
+											fresh, why = false, "a field address of it is handed on"
+										}
+									}
+								}
+							default:
+								fresh, why = false, "it is also kept or handed on at "+c.Pos(r)
+							}
+						}
+					}
+					if !fresh {
+						c.R.Fail(rule, Fn(fn)+":fresh", c.Pos(st), "the credentials object carrying the caller's identity is shared beyond this request: "+why, "a new Credentials object per call, only filled and returned", nil)
+					} else {
+						c.R.OK(rule, Fn(fn)+":fresh", c.Pos(st), "the credentials object is created by this call and only filled and returned")
+					}
+				}
 				if ctxValueOfKey(st.Val) != "ClientName" {
 					c.R.Fail(rule, Fn(fn)+":credentials", c.Pos(st), "the client name used for permission decisions is not read from the authenticated identity in the request context: "+an.Term(st.Val), "Credentials.Client = ctx.Value(ClientName)", nil)
 				} else {
